@@ -14,6 +14,9 @@ use vm_memory::{
 type M = GuestMemoryMmap<()>;
 const SIZE: usize = 0x1001; // not a page multiple: a wrong munmap length leaves a page behind
 const PAGES: usize = 0x2000;
+/// an owned mapping that carries the hugetlbfs hint: larger than 2 MiB and not a multiple of it (an unmap length
+/// rounded to huge pages would take the neighbouring mapping with it)
+const HUGE: usize = 0x20_1000;
 
 enum Slot {
     Region(Arc<GuestRegionMmap<()>>),
@@ -24,6 +27,7 @@ enum Slot {
 }
 
 struct Mapping {
+    len: usize,
     kind: String,
     name: String,
     raw_ptr: usize,
@@ -57,7 +61,7 @@ impl OwnExec {
                         pieces += 1;
                     }
                 }
-                json!({"kind": m.kind, "bytes": bytes, "pieces": pieces, "size": PAGES})
+                json!({"kind": m.kind, "bytes": bytes, "pieces": pieces, "size": m.len})
             })
             .collect()
     }
@@ -126,7 +130,7 @@ impl Exec for OwnExec {
                         .build();
                     let ok = res.is_ok();
                     drop(res);
-                    self.maps.push(Mapping { kind, name, raw_ptr, _file: f });
+                    self.maps.push(Mapping { len: PAGES, kind, name, raw_ptr, _file: f });
                     return event(line, if ok { json!({"k": "ok", "v": 0}) } else { json!({"k": "err"}) }, self.state());
                 }
                 if kind == "failed_wrap" {
@@ -141,8 +145,23 @@ impl Exec for OwnExec {
                     let res = GuestRegionMmap::new(region, GuestAddress(u64::MAX - 0x10));
                     let ok = res.is_ok();
                     drop(res);
-                    self.maps.push(Mapping { kind, name, raw_ptr, _file: f });
+                    self.maps.push(Mapping { len: PAGES, kind, name, raw_ptr, _file: f });
                     return event(line, if ok { json!({"k": "ok", "v": 0}) } else { json!({"k": "err"}) }, self.state());
+                }
+                if kind == "owned_huge" {
+                    f.set_len(HUGE as u64).unwrap();
+                    let region = MmapRegionBuilder::<()>::new(HUGE)
+                        .with_file_offset(FileOffset::from_arc(f.clone(), 0))
+                        .with_mmap_prot(libc::PROT_READ | libc::PROT_WRITE)
+                        .with_mmap_flags(libc::MAP_SHARED | libc::MAP_NORESERVE)
+                        .with_hugetlbfs(true)
+                        .build()
+                        .expect("harness: build owned (hinted)");
+                    let g = GuestRegionMmap::new(region, GuestAddress(id as u64 * 0x100_0000)).expect("harness: region");
+                    g.write_obj::<u8>(id as u8, vm_memory::MemoryRegionAddress(0)).unwrap();
+                    self.maps.push(Mapping { len: HUGE, kind: "owned".to_string(), name, raw_ptr, _file: f });
+                    self.slots.push(Some(Slot::Region(Arc::new(g))));
+                    return event(line, json!({"k": "ok", "v": self.slots.len()}), self.state());
                 }
                 let region = if kind == "raw" {
                     use std::os::fd::AsRawFd;
@@ -167,9 +186,9 @@ impl Exec for OwnExec {
                         .build()
                         .expect("harness: build owned")
                 };
-                let g = GuestRegionMmap::new(region, GuestAddress(id as u64 * 0x10000)).expect("harness: region");
+                let g = GuestRegionMmap::new(region, GuestAddress(id as u64 * 0x100_0000)).expect("harness: region");
                 g.write_obj::<u8>(id as u8, vm_memory::MemoryRegionAddress(0)).unwrap();
-                self.maps.push(Mapping { kind, name, raw_ptr, _file: f });
+                self.maps.push(Mapping { len: PAGES, kind, name, raw_ptr, _file: f });
                 self.slots.push(Some(Slot::Region(Arc::new(g))));
                 json!({"k": "ok", "v": self.slots.len()})
             }
